@@ -9,9 +9,13 @@ environment:
   VFAULT_KIND  = crash  : os._exit(77) BEFORE performing the call (interruption point)
                | fail   : the call fails the way the real component fails: black raises / format-command exits non-zero,
                           open / rename / read raise OSError, write raises OSError after the file was opened for writing
+               | garble : (format-command only) THIS call of the formatter exits with status 0 but prints something else than the
+                          formatted code: VFAULT_GARBLE = syntax (unparsable text) | empty (nothing) | other (valid Python,
+                          another program); at a boundary that is no formatter call nothing happens
   VFAULT_SIGNAL = 1     : a failing format-command dies by SIGKILL (negative return code) instead of exiting with status 3
-  VFAULT_FMT   = ok | garbage | fail : what the formatter does on EVERY call (deterministic formatter behaviour):
-                          garbage = exit status 0 / no exception but unparsable output; fail = always raises / non-zero
+  VFAULT_FMT   = ok | garbage | empty | other | fail : what the formatter does on EVERY call (deterministic formatter behaviour):
+                          garbage / empty / other = exit status 0 / no exception but unparsable output / no output / another
+                          program; fail = always raises / non-zero (its error output holds rich markup like `[/]`)
 phases: "preview" = the report loop of pytest_sessionfinish (diff panels), "write" = everything after report_problems()
 """
 import json
@@ -50,6 +54,9 @@ def boundary(step, what):
             sys.stdout.flush()
             sys.stderr.flush()
             os._exit(77)
+        if KIND == "garble":
+            _S["garble"] = step == "format"
+            return False
         return True
     _log(step, what)
     return False
@@ -126,9 +133,16 @@ def install():
                 if os.environ.get("VFAULT_SIGNAL"):
                     # the formatter process is killed by a signal (subprocess reports a negative return code)
                     return _format_sp.run(f"exec {sys.executable} -c 'import os, signal; os.kill(os.getpid(), signal.SIGKILL)'", **kw)
-                return _format_sp.run(f"{sys.executable} -c 'import sys; sys.stderr.write(\"injected\"); sys.exit(3)'", **kw)
-            if FMT == "garbage":
+                return _format_sp.run(f"{sys.executable} -c 'import sys; sys.stderr.write(\"injected [/] error [bold\"); sys.exit(3)'", **kw)
+            mode = FMT
+            if _S.pop("garble", False):
+                mode = {"syntax": "garbage"}.get(os.environ.get("VFAULT_GARBLE", "syntax"), os.environ.get("VFAULT_GARBLE"))
+            if mode == "garbage":
                 return _format_sp.run(f"{sys.executable} -c 'print(\"def (((:\")'", **kw)
+            if mode == "empty":
+                return _format_sp.run(f"{sys.executable} -c 'pass'", **kw)
+            if mode == "other":
+                return _format_sp.run(f"{sys.executable} -c 'print(\"pass\")'", **kw)
             return _format_sp.run(cmd, **kw)
     _format_sp = _format.sp
     _format.sp = _SP()
